@@ -299,3 +299,101 @@ package corebgp
 //@   ensures [flags_error_joined] !optNonTransFlags(flags) ==> hasType(err, *TreatAsWithdrawUpdateErr) && firstOf(err, *TreatAsWithdrawUpdateErr).Code == 15
 //@   ensures [nil_iff] (err == nil) == (optNonTransFlags(flags) && called == 1 && cbTag == 0)
 //@   ensures [callback_error_kept] called == 1 && cbTag != 0 ==> errContainsTV(err, cbTag, cbVal)
+
+// ---- UpdateDecoder (C16, C17) ----
+
+// attrsBitmap against its set view. These two 8-instruction functions use
+// variable shifts; their contracts are discharged by the bit-vector side proof
+// (cbv bvproof), not by the integer engine.
+//@ func attrsBitmap.isSet returns (r)
+//@   trusted
+//@   ensures r == bmHas(*a, b)
+//@ func attrsBitmap.set
+//@   trusted
+//@   modifies *a
+//@   ensures forall c :: bmHas(*a, c) == (bmHas(old(*a), c) || c == b)
+
+//@ func totalAttrLenErr returns (err)
+//@   ensures [class] isTAW(err, code, 3, 0) && len(tawNotif(err).Data) == 0 && fresh(err.val)
+
+//@ func UpdateDecoder.decodePathAttrs returns (err)
+//@   requires s.paFn != nil
+//@   ghost b0 = b
+//@   ghostvar ipos int = 0
+//@   ghostvar ncalls int = 0
+//@   ghostvar delivered intarray = emptyArr()
+//@   ghostvar seen intarray = emptyArr()
+//@   ghostvar allNil bool = true
+//@   ghostvar overrun bool = false
+//@   ghostvar dupMP bool = false
+//@   ghostvar cbNotif bool = false
+//@   ghostvar cbT intarray = emptyArr()
+//@   ghostvar cbV intarray = emptyArr()
+//@   ghostvar ncb int = 0
+//@   ghostvar mVal int = 0
+//@   at call ExtendedLen#0 set ipos = offsetIn(b, b0)
+//@   at call totalAttrLenErr set overrun = true
+//@   at call set#0 after set seen = attrsSeen
+//@   at call paFn#0 assert [attr_args] arg1 == b0[ipos+1] && arg2 == b0[ipos] && sameSlice(arg3, b0[ipos + attrHdr(b0, ipos) : attrNext(b0, ipos)])
+//@   at call paFn#0 assert [first_occurrence_only] delivered[arg1] == 0
+//@   at call paFn#0 set delivered = store(delivered, arg1, 1)
+//@   at call paFn#0 set ncalls = ncalls + 1
+//@   at call paFn#0 after set allNil = allNil && result == nil
+//@   at call paFn#0 after set cbT = store(cbT, ncb, result.tag)
+//@   at call paFn#0 after set cbV = store(cbV, ncb, result.val)
+//@   at call paFn#0 after set ncb = ncb + 1
+//@   at call Join#4 set dupMP = true
+//@   at call As#0 after set cbNotif = result
+//@   at call Join#6 set mVal = arg0[1].val
+//@   loop#0 invariant [suffix]    suffixOf(b, b0)
+//@   loop#0 invariant [seen_view] seen == attrsSeen && (forall c :: 0 <= c && c <= 255 ==> (delivered[c] == 1) == bmHas(attrsSeen, c)) && (forall c :: delivered[c] == 0 || delivered[c] == 1)
+//@   loop#0 invariant [me_nil]    (me == nil) == allNil && !overrun && !dupMP && !cbNotif
+//@   loop#0 invariant [me_contains] ncb >= 0 && (forall i :: 0 <= i && i < ncb && cbT[i] != 0 ==> errContainsTV(me, cbT[i], cbV[i]))
+//@   loop#0 invariant [no_notif_so_far] forall i :: 0 <= i && i < ncb && cbT[i] != 0 ==> !hasTypeTV(cbT[i], cbV[i], *Notification)
+//@   loop#0 decreases len(b)
+//@   loop#0 step [advance]        attrFits(b0, entry(offsetIn(b, b0))) && offsetIn(b, b0) == attrNext(b0, entry(offsetIn(b, b0)))
+//@   loop#0 step [call_iff_first] ncalls == entry(ncalls) + (bmHas(entry(attrsSeen), b0[entry(offsetIn(b, b0)) + 1]) ? 0 : 1)
+//@   ensures [nil_iff] (err == nil) == (allNil && !overrun && !dupMP && !((hasNLRI || bmHas(seen, 14)) && (!bmHas(seen, 1) || !bmHas(seen, 2))))
+//@   ensures [contains_cb] forall i :: 0 <= i && i < ncb && cbT[i] != 0 ==> errContainsTV(err, cbT[i], cbV[i])
+//@   ensures [dup_mp_class] dupMP ==> hasType(err, *Notification) && !cbNotif
+//@   ensures [cb_notif_stops] cbNotif ==> hasType(err, *Notification)
+//@   ensures [overrun_class] overrun ==> hasType(err, *TreatAsWithdrawUpdateErr)
+//@   ensures [missing_class] !dupMP && !cbNotif && (hasNLRI || bmHas(seen, 14)) && (!bmHas(seen, 1) || !bmHas(seen, 2)) ==> errContainsTV(err, tagOf(*TreatAsWithdrawUpdateErr), mVal) && asPtr(mVal, *TreatAsWithdrawUpdateErr).Code == (bmHas(seen, 1) ? 2 : 1) && asPtr(mVal, *TreatAsWithdrawUpdateErr).Notification != nil && asPtr(mVal, *TreatAsWithdrawUpdateErr).Notification.Code == 3 && asPtr(mVal, *TreatAsWithdrawUpdateErr).Notification.Subcode == 3 && len(asPtr(mVal, *TreatAsWithdrawUpdateErr).Notification.Data) == 1 && asPtr(mVal, *TreatAsWithdrawUpdateErr).Notification.Data[0] == (bmHas(seen, 1) ? 2 : 1)
+
+//@ func UpdateDecoder.Decode returns (err)
+//@   requires s.wrFn != nil && s.paFn != nil && s.nlriFn != nil
+//@   ghost b0 = b
+//@   let wrl = be16(b0, 0)
+//@   let pal = be16(b0, 2 + be16(b0, 0))
+//@   let framingOK = len(b0) >= 4 && len(b0) - 2 >= be16(b0, 0) + 2 && len(b0) - 4 - be16(b0, 0) >= be16(b0, 2 + be16(b0, 0))
+//@   ghostvar nwr int = 0
+//@   ghostvar npa int = 0
+//@   ghostvar nnlri int = 0
+//@   ghostvar wrT int = 0
+//@   ghostvar wrV int = 0
+//@   ghostvar paT int = 0
+//@   ghostvar paV int = 0
+//@   ghostvar nlT int = 0
+//@   ghostvar nlV int = 0
+//@   at call wrFn#0 assert [withdrawn_exact] nwr == 0 && npa == 0 && nnlri == 0 && framingOK && sameSlice(arg1, b0[2 : 2 + wrl])
+//@   at call wrFn#0 set nwr = nwr + 1
+//@   at call wrFn#0 after set wrT = result.tag
+//@   at call wrFn#0 after set wrV = result.val
+//@   at call decodePathAttrs#0 assert [attrs_exact] nwr == 1 && npa == 0 && nnlri == 0 && sameSlice(arg2, b0[4 + wrl : 4 + wrl + pal]) && arg3 == (len(b0) > 4 + wrl + pal)
+//@   at call decodePathAttrs#0 set npa = npa + 1
+//@   at call decodePathAttrs#0 after set paT = result.tag
+//@   at call decodePathAttrs#0 after set paV = result.val
+//@   at call nlriFn#0 assert [nlri_exact] nwr == 1 && npa == 1 && nnlri == 0 && sameSlice(arg1, b0[4 + wrl + pal :])
+//@   at call nlriFn#0 set nnlri = nnlri + 1
+//@   at call nlriFn#0 after set nlT = result.tag
+//@   at call nlriFn#0 after set nlV = result.val
+//@   ensures [short_body]   len(b) < 4 ==> isNotif(err, 3, 0) && nwr == 0 && npa == 0 && nnlri == 0
+//@   ensures [bad_lengths]  len(b) >= 4 && !framingOK ==> isNotif(err, 3, 1) && nwr == 0 && npa == 0 && nnlri == 0
+//@   ensures [sections_once] framingOK ==> nwr == 1 && npa <= 1 && nnlri <= npa
+//@   ensures [nil_iff]      (err == nil) == (framingOK && nwr == 1 && npa == 1 && nnlri == 1 && wrT == 0 && paT == 0 && nlT == 0)
+//@   ensures [wr_notif_stops] framingOK && wrT != 0 && hasTypeTV(wrT, wrV, *Notification) ==> npa == 0 && nnlri == 0 && hasType(err, *Notification)
+//@   ensures [pa_notif_stops] npa == 1 && paT != 0 && hasTypeTV(paT, paV, *Notification) ==> nnlri == 0 && hasType(err, *Notification)
+//@   ensures [otherwise_all_sections] framingOK && !(wrT != 0 && hasTypeTV(wrT, wrV, *Notification)) && !(npa == 1 && paT != 0 && hasTypeTV(paT, paV, *Notification)) ==> npa == 1 && nnlri == 1
+//@   ensures [contains_wr]  nwr == 1 && wrT != 0 ==> errContainsTV(err, wrT, wrV)
+//@   ensures [contains_pa]  npa == 1 && paT != 0 ==> errContainsTV(err, paT, paV)
+//@   ensures [contains_nlri] nnlri == 1 && nlT != 0 ==> errContainsTV(err, nlT, nlV)
